@@ -34,7 +34,7 @@ TARGETS = [
     ("renew", "config roa_weeks=52 roa_reissue=60\n", "", "task renew"),
     ("parentrm", "", "", "parentrm b a"),
 ]
-QUICK_ALWAYS = ["roa", "shrink", "rollactivate"]
+QUICK_ALWAYS = ["roa", "rollactivate", "cainit"]
 
 RULE = ("stream fault: for each (state, operation) scenario every cut point n = 0..#mutations-1 of the operation "
         "plus the tasks it triggers is enumerated on a forked copy of the DISK data directory: the n-th key-value "
@@ -132,7 +132,7 @@ def check(ctx):
     if vlib.build_harness(ctx, ["fault"]):
         rnd = random.Random(ctx.seed)
         if ctx.tier == "quick":
-            names = set(QUICK_ALWAYS) | set(rnd.sample([t[0] for t in TARGETS if t[0] not in QUICK_ALWAYS], 3))
+            names = set(QUICK_ALWAYS) | set(rnd.sample([t[0] for t in TARGETS if t[0] not in QUICK_ALWAYS], 2))
             plan = [(t, "crash", "kv", "all") for t in TARGETS if t[0] in names]
             plan += [(t, "once", "kv", "sample") for t in TARGETS if t[0] in names]
         else:
